@@ -8,5 +8,8 @@ print("| id | breaks | needs to manifest | confirmed | checks (detected?) |\n|--
 for f in sorted(glob.glob(os.path.join(V, "seeded", "*", "meta.json"))):
     m = json.load(open(f))
     ch = ", ".join("%s:%s" % (p, "yes" if c.get("detected") else "NO") for p, c in (m.get("checks") or {}).items())
+    conf = m.get("confirmed")
+    if os.path.exists(os.path.join(os.path.dirname(f), "OBSOLETE.txt")):
+        conf = "obsolete (see OBSOLETE.txt)"
     print("| %s | %s | %s | %s | %s |" % (m["id"], m["property"], (m.get("needs_to_manifest") or "")[:160].replace("|", "/").replace("\n", " "),
-                                        m.get("confirmed"), ch))
+                                        conf, ch))
